@@ -58,6 +58,12 @@ claims.update({
  "C12": dict(level="other", engine="E1 absint", technique="static analysis: symbolic evaluation of the hand-written field layer (wrappers under all aliasings, chain exponents, sqrt_ratio, predicates, cmov, reduce/parse/serialise/wide reduction) with Fiat primitives as trusted leaves",
     text="Decides everything in internal/field that is not Fiat-generated: wrapper pass-through under every aliasing, chain exponents p-2 and (p-3)/4 from the chains' own code, SqrtRatio = RFC F.2.1.2, Sgn0/IsZero/Equals/CMove semantics (bit idioms analysed, not assumed), Reduce with the code's limbs of p, parser flag, serialiser layout, 48-byte wide reduction, and the < p typestate at every primitive call. Level 'other': the word-level carry chains of the generated primitives are not decided.",
     note="Not decided: Fiat-generated word-level arithmetic (trusted leaf specifications).", ref="3 C12"),
+ "C08": dict(level="other", engine="E1 absint (D-bytes + D-int + group-level composition)", technique="static analysis: byte-string term evaluation of expand_message_xmd with an abstract hash object, wide reduction as a linear form over byte atoms, group-level data-flow of the suite composition",
+    text="HashToGroup/EncodeToGroup are interpreted with symbolic msg and DST of symbolic length. For each DST length class found by path enumeration (empty: panic before hashing; 1..255; >255: oversize rule) the uniform bytes must be the RFC 9380 5.3.1 term over H = SHA-256 as an uninterpreted function; the field elements given to the map must be OS2IP(48-byte block) mod p; the result must be I(S(u0)) + I(S(u1)) summed by a complete addition (RO) resp. I(S(u0)) (NU), where S and I are the SSWU and isogeny functions decided by C11 (re-run). Level 'other': SHA-256 and the Fiat word arithmetic are trusted, not decided.",
+    note="Not decided: crypto/sha256, Fiat word-level arithmetic. RFC 9380 is the oracle.", ref="3 C08"),
+ "C09": dict(level="other", engine="E1 absint (D-bytes + D-int)", technique="static analysis: byte-string term evaluation of expand_message_xmd with an abstract hash object; wide reduction compared as a linear form over the 48 byte atoms",
+    text="HashToScalar with symbolic msg/DST: per DST length class the 48 expander bytes must equal the RFC 9380 5.3.1 term and the scalar must be OS2IP(those bytes) mod n (a + b·2^192 with the code's Montgomery constants, compared at byte granularity); empty DST panics before hashing. Level 'other': SHA-256 and Fiat word arithmetic trusted.",
+    note="Not decided: crypto/sha256, Fiat word-level arithmetic.", ref="3 C09"),
 })
 pending = {}
 ids = ["C%02d" % i for i in range(1, 20)]
